@@ -157,6 +157,9 @@ def judge(s, diff, malformed, results, configs, desc, fl):
     for r_ in results:
         if r_.cls == "wall-timeout":
             return Case(INCONCLUSIVE, key=key, summary="wall timeout", evals=len(results))
+        if b"Connection timed out (os error 110)" in r_.err and b"127.0.0.1" in r_.err:
+            # the harness's own endpoint did not accept a connection in time (loaded machine): nothing learnt about blockwatch
+            return Case(INCONCLUSIVE, key=key, summary="fake AI endpoint did not accept a connection in time", evals=len(results))
     # TSan: reproducible report = violation, single = inconclusive
     if fl == "tsan":
         reports = [list(r_.sig or []) for r_ in results]
